@@ -365,3 +365,12 @@ Example C16_example_src_format :
   src_val_to_formatted_str 5 [101; 51; 47; 67] [([67; 67], [([66], 5)]); ([67], [([65], 5)])] = Ok [65] /\
   src_formatted_str_to_val [65] [101; 51; 47; 67] [([67; 67], [([66], 5)]); ([67], [([65], 5)])] = Ok 5.
 Proof. vm_compute. repeat split; reflexivity. Qed.
+
+(* hex digits that are also radix letters keep their value in every position: "8'hd5" = 213, "4'hb" = 11,
+   "-12'HB_d" = -(0xbd) (instances of C16_verilog_parse_print_digits / C16_verilog_parse_print) *)
+Example C16_example_hex_radix_letter_digits :
+  verilog_parse [56; 39; 104; 100; 53] = Ok (false, 8, 213) /\
+  infer (RStr [52; 39; 104; 98]) None false = Ok (11, 4) /\
+  verilog_parse [45; 49; 50; 39; 72; 66; 95; 100] = Ok (true, 12, 189) /\
+  const_model (RInt 4) (Some 3) true = infer (RInt 4) (Some 3) true /\ is_ok (infer (RInt 4) (Some 3) true) = false.
+Proof. vm_compute. repeat split; reflexivity. Qed.
